@@ -11,6 +11,11 @@ package membership
 //
 // The projection is GetUserChannelMembership / GetUserCMDChannelMembership of every
 // (user, channel) of the case.
+//
+// Channel n of the specification is the pair (channel id "g<(n+1)/2>", channel type
+// 2 - n%2): 1 = (g1,1), 2 = (g1,2), 3 = (g2,1).  Channels 1 and 2 share one id and
+// differ in the channel type only (the type is part of the primary key and of the
+// activation index key).
 
 import (
 	"context"
@@ -25,10 +30,7 @@ import (
 	"verif/runner/kit"
 )
 
-const (
-	chanType = 2
-	nCh      = 3
-)
+const nCh = 3
 
 var users = []string{"u1", "u2"}
 
@@ -58,14 +60,21 @@ func (s *mbSUT) begin(n int) {
 }
 
 func (s *mbSUT) uid(u string) string { return s.prefix + "-" + u }
-func chID(c int64) string            { return "g" + strconv.FormatInt(c, 10) }
+func chID(c int64) string            { return "g" + strconv.FormatInt((c+1)/2, 10) }
+func chType(c int64) int64           { return 2 - c%2 }
 func cmdID(c int64) string           { return chID(c) + "____cmd" }
-func chNo(id string) int64 {
+
+// chNo is the inverse of (chID, chType); -1 for anything that is not a channel of the case.
+func chNo(id string, typ int64) int64 {
 	n, err := strconv.ParseInt(strings.TrimPrefix(id, "g"), 10, 64)
-	if err != nil {
+	if err != nil || n < 1 || (typ != 1 && typ != 2) {
 		return -1
 	}
-	return n
+	c := 2*n - 2 + typ
+	if c > nCh || chID(c) != id {
+		return -1
+	}
+	return c
 }
 
 func (s *mbSUT) shard(u string) *metadb.Shard {
@@ -75,7 +84,7 @@ func (s *mbSUT) shard(u string) *metadb.Shard {
 func (s *mbSUT) now() int64 { s.tick++; return s.tick }
 
 func (s *mbSUT) memRow(u string, c int64, m map[string]any) metadb.UserChannelMembership {
-	row := metadb.UserChannelMembership{UID: s.uid(u), ChannelID: chID(c), ChannelType: chanType,
+	row := metadb.UserChannelMembership{UID: s.uid(u), ChannelID: chID(c), ChannelType: chType(c),
 		JoinSeq: 1, ReadSeq: uint64(kit.Int(m, "read")), DeletedToSeq: uint64(kit.Int(m, "del")),
 		ActivatedAt: kit.Int(m, "at"), Tombstone: kit.Bool(m, "tomb"), SourceVersion: uint64(kit.Int(m, "sv")),
 		UpdatedAt: s.now()}
@@ -86,7 +95,7 @@ func (s *mbSUT) memRow(u string, c int64, m map[string]any) metadb.UserChannelMe
 }
 
 func (s *mbSUT) cmdRow(u string, c int64, m map[string]any) metadb.UserCMDChannelMembership {
-	row := metadb.UserCMDChannelMembership{UID: s.uid(u), CommandChannelID: cmdID(c), ChannelType: chanType,
+	row := metadb.UserCMDChannelMembership{UID: s.uid(u), CommandChannelID: cmdID(c), ChannelType: chType(c),
 		StartSeq: 1, AckSeq: uint64(kit.Int(m, "ack")), Tombstone: kit.Bool(m, "tomb"), UpdatedAt: s.now()}
 	if row.Tombstone {
 		row.TombstoneAt = row.UpdatedAt
@@ -100,7 +109,7 @@ func (s *mbSUT) proj() (map[string]any, error) {
 	for _, u := range users {
 		var mrows, crows []any
 		for c := int64(1); c <= nCh; c++ {
-			r, ok, err := s.shard(u).GetUserChannelMembership(ctx, s.uid(u), chID(c), chanType)
+			r, ok, err := s.shard(u).GetUserChannelMembership(ctx, s.uid(u), chID(c), chType(c))
 			if err != nil {
 				return nil, fmt.Errorf("GetUserChannelMembership(%s,%d): %w", u, c, err)
 			}
@@ -110,7 +119,7 @@ func (s *mbSUT) proj() (map[string]any, error) {
 			} else {
 				mrows = append(mrows, map[string]any{"present": false, "tomb": false, "read": 0, "del": 0, "at": 0, "sv": 0})
 			}
-			cr, ok, err := s.shard(u).GetUserCMDChannelMembership(ctx, s.uid(u), cmdID(c), chanType)
+			cr, ok, err := s.shard(u).GetUserCMDChannelMembership(ctx, s.uid(u), cmdID(c), chType(c))
 			if err != nil {
 				return nil, fmt.Errorf("GetUserCMDChannelMembership(%s,%d): %w", u, c, err)
 			}
@@ -143,7 +152,7 @@ func (s *mbSUT) call(op map[string]any) error {
 	ctx := context.Background()
 	u, c, m := kit.Str(op, "u"), kit.Int(op, "c"), kit.Map(op, "m")
 	sh := s.shard(u)
-	key := metadb.ChannelKey{ChannelID: chID(c), ChannelType: chanType}
+	key := metadb.ChannelKey{ChannelID: chID(c), ChannelType: chType(c)}
 	switch kit.Str(op, "k") {
 	case "upsert":
 		return sh.UpsertUserChannelMembership(ctx, s.memRow(u, c, m))
@@ -160,9 +169,9 @@ func (s *mbSUT) call(op map[string]any) error {
 	case "cupsert":
 		return sh.UpsertUserCMDChannelMembership(ctx, s.cmdRow(u, c, m))
 	case "cack":
-		return sh.AdvanceUserCMDChannelMembershipAckSeq(ctx, s.uid(u), cmdID(c), chanType, uint64(kit.Int(m, "ack")), s.now())
+		return sh.AdvanceUserCMDChannelMembershipAckSeq(ctx, s.uid(u), cmdID(c), chType(c), uint64(kit.Int(m, "ack")), s.now())
 	case "ctomb":
-		return sh.TombstoneUserCMDChannelMembership(ctx, s.uid(u), cmdID(c), chanType, s.now())
+		return sh.TombstoneUserCMDChannelMembership(ctx, s.uid(u), cmdID(c), chType(c), s.now())
 	}
 	return fmt.Errorf("harness: unknown operation %q", kit.Str(op, "k"))
 }
@@ -170,7 +179,7 @@ func (s *mbSUT) call(op map[string]any) error {
 func (s *mbSUT) stage(wb *metadb.WriteBatch, op map[string]any) error {
 	u, c, m := kit.Str(op, "u"), kit.Int(op, "c"), kit.Map(op, "m")
 	hs := s.slots[u]
-	key := metadb.ChannelKey{ChannelID: chID(c), ChannelType: chanType}
+	key := metadb.ChannelKey{ChannelID: chID(c), ChannelType: chType(c)}
 	switch kit.Str(op, "k") {
 	case "upsert":
 		return wb.UpsertUserChannelMembership(hs, s.memRow(u, c, m))
@@ -226,7 +235,7 @@ func (s *mbSUT) apply(ev map[string]any) (map[string]any, map[string]any, error)
 		u, cur := kit.Str(ev, "u"), kit.Map(ev, "cur")
 		var cursor metadb.UserChannelMembershipCursor
 		if kit.Int(cur, "c") != 0 {
-			cursor = metadb.UserChannelMembershipCursor{ActivatedAt: kit.Int(cur, "at"), ChannelID: chID(kit.Int(cur, "c")), ChannelType: chanType}
+			cursor = metadb.UserChannelMembershipCursor{ActivatedAt: kit.Int(cur, "at"), ChannelID: chID(kit.Int(cur, "c")), ChannelType: chType(kit.Int(cur, "c"))}
 		}
 		rows, next, done, err := s.shard(u).ListUserChannelMembershipPage(context.Background(), s.uid(u), cursor, int(kit.Int(ev, "n")))
 		if err != nil {
@@ -239,17 +248,18 @@ func (s *mbSUT) apply(ev map[string]any) (map[string]any, map[string]any, error)
 		}
 		live := []any{}
 		for _, r := range rows {
-			if r.UID != s.uid(u) || r.ChannelType != chanType || chNo(r.ChannelID) < 1 {
-				live = append(live, map[string]any{"c": -1, "at": r.ActivatedAt, "foreign": r.UID + "/" + r.ChannelID})
+			if r.UID != s.uid(u) || chNo(r.ChannelID, r.ChannelType) < 1 {
+				live = append(live, map[string]any{"c": -1, "at": r.ActivatedAt,
+					"foreign": fmt.Sprintf("%s/%s/%d", r.UID, r.ChannelID, r.ChannelType)})
 				continue
 			}
 			if !r.Tombstone {
-				live = append(live, map[string]any{"c": chNo(r.ChannelID), "at": r.ActivatedAt})
+				live = append(live, map[string]any{"c": chNo(r.ChannelID, r.ChannelType), "at": r.ActivatedAt})
 			}
 		}
 		nx := map[string]any{"c": 0, "at": next.ActivatedAt}
 		if next.ChannelID != "" {
-			nx["c"] = chNo(next.ChannelID)
+			nx["c"] = chNo(next.ChannelID, next.ChannelType)
 		}
 		res = map[string]any{"rows": live, "next": nx, "done": done}
 	case "Reopen":
@@ -294,8 +304,42 @@ func rowOf(st map[string]any, table, u string, c int64) map[string]any {
 	return r
 }
 
+type slot struct {
+	u string
+	c int64
+}
+
+func presentSlots(st map[string]any, table string, want func(map[string]any) bool) []slot {
+	var out []slot
+	for _, u := range users {
+		for c := int64(1); c <= nCh; c++ {
+			if r := rowOf(st, table, u, c); kit.Bool(r, "present") && (want == nil || want(r)) {
+				out = append(out, slot{u, c})
+			}
+		}
+	}
+	return out
+}
+
+// partner is the channel with the same id and the other channel type (c itself when
+// the case has none).
+func partner(c int64) int64 {
+	if c%2 == 1 {
+		if c+1 <= nCh {
+			return c + 1
+		}
+		return c
+	}
+	return c - 1
+}
+
 func genOp(rng *rand.Rand, st map[string]any) map[string]any {
-	k := kindBag[rng.Intn(len(kindBag))]
+	return genOpOn(rng, st, kindBag, nil)
+}
+
+// genOpOn draws one operation of a kind from kinds; on slot fixed when that is not nil.
+func genOpOn(rng *rand.Rand, st map[string]any, kinds []string, fixed *slot) map[string]any {
+	k := kinds[rng.Intn(len(kinds))]
 	isCmd := strings.HasPrefix(k, "c")
 	creates := k == "upsert" || k == "ensure" || k == "cupsert"
 	table := "mem"
@@ -303,22 +347,14 @@ func genOp(rng *rand.Rand, st map[string]any) map[string]any {
 		table = "cmd"
 	}
 	// mutators are aimed at rows that exist (3 of 4), creators at any slot (1 of 2)
-	type slot struct {
-		u string
-		c int64
-	}
-	var present []slot
-	for _, u := range users {
-		for c := int64(1); c <= nCh; c++ {
-			if kit.Bool(rowOf(st, table, u, c), "present") {
-				present = append(present, slot{u, c})
-			}
-		}
-	}
+	present := presentSlots(st, table, nil)
 	sl := slot{users[rng.Intn(len(users))], 1 + int64(rng.Intn(nCh))}
 	coin := rng.Intn(4)
 	if len(present) > 0 && !(coin == 0 || (creates && coin == 1)) {
 		sl = present[rng.Intn(len(present))]
+	}
+	if fixed != nil {
+		sl = *fixed
 	}
 	ex, cx := rowOf(st, "mem", sl.u, sl.c), rowOf(st, "cmd", sl.u, sl.c)
 	near := rng.Intn(2) == 0
@@ -328,16 +364,24 @@ func genOp(rng *rand.Rand, st map[string]any) map[string]any {
 		}
 		return int64(rng.Intn(span))
 	}
+	// activation time: one in three copies the row with the same channel id and the other
+	// channel type, so that only the channel type orders the two index entries
+	at := func() int64 {
+		if rng.Intn(3) == 0 {
+			return kit.Int(rowOf(st, "mem", sl.u, partner(sl.c)), "at")
+		}
+		return val(kit.Int(ex, "at"), 6)
+	}
 	m := map[string]any{"tomb": false, "read": int64(0), "del": int64(0), "at": int64(0), "sv": int64(0), "ack": int64(0)}
 	switch k {
 	case "upsert", "ensure":
 		m["tomb"] = rng.Intn(4) == 0
 		m["read"], m["del"] = val(kit.Int(ex, "read"), 30), val(kit.Int(ex, "del"), 30)
-		m["at"], m["sv"] = val(kit.Int(ex, "at"), 6), val(kit.Int(ex, "sv"), 5)
+		m["at"], m["sv"] = at(), val(kit.Int(ex, "sv"), 5)
 	case "read":
 		m["read"] = val(kit.Int(ex, "read"), 30)
 	case "activate":
-		m["at"] = val(kit.Int(ex, "at"), 6)
+		m["at"] = at()
 		if m["at"].(int64) == 0 {
 			m["at"] = int64(1)
 		}
@@ -350,6 +394,51 @@ func genOp(rng *rand.Rand, st map[string]any) map[string]any {
 		m["ack"] = val(kit.Int(cx, "ack"), 30)
 	}
 	return map[string]any{"k": k, "u": sl.u, "c": sl.c, "m": m}
+}
+
+var (
+	cmdFollowers = []string{"cack", "ctomb", "cupsert"}
+	memSources   = []string{"upsert", "ensure"}
+	memMutators  = []string{"read", "hide", "activate"}
+	memAny       = []string{"upsert", "ensure", "read", "hide", "activate", "upsert", "ensure", "read", "hide", "activate", "delete"}
+)
+
+// genSameRowBatch builds a batch of two (sometimes three) operations on the SAME row:
+// the later ones are resolved against what the earlier ones staged, not against the
+// stored row. Command-channel binding: a (re-)bind followed by ack / tombstone / bind
+// (preferring a live binding that was acknowledged); conversation membership: a source
+// write followed by a mutator or another source write, or a mutator followed by a
+// source write.
+func genSameRowBatch(rng *rand.Rand, st map[string]any) []any {
+	pick := func(table string, want func(map[string]any) bool) slot {
+		cands := presentSlots(st, table, want)
+		if len(cands) == 0 {
+			cands = presentSlots(st, table, nil)
+		}
+		if len(cands) == 0 {
+			return slot{users[rng.Intn(len(users))], 1 + int64(rng.Intn(nCh))}
+		}
+		return cands[rng.Intn(len(cands))]
+	}
+	live := func(r map[string]any) bool { return !kit.Bool(r, "tomb") }
+	var first, second, more []string
+	var sl slot
+	switch mode := rng.Intn(5); {
+	case mode <= 1:
+		sl = pick("cmd", func(r map[string]any) bool { return live(r) && kit.Int(r, "ack") > 0 })
+		first, second, more = []string{"cupsert"}, cmdFollowers, cmdFollowers
+	case mode <= 3:
+		sl = pick("mem", live)
+		first, second, more = memSources, append(append([]string{}, memMutators...), memSources...), memAny
+	default:
+		sl = pick("mem", live)
+		first, second, more = memMutators, memSources, memAny
+	}
+	ops := []any{genOpOn(rng, st, first, &sl), genOpOn(rng, st, second, &sl)}
+	if rng.Intn(4) == 0 {
+		ops = append(ops, genOpOn(rng, st, more, &sl))
+	}
+	return ops
 }
 
 func TestVerifMembership(t *testing.T) {
@@ -439,13 +528,15 @@ func TestVerifMembership(t *testing.T) {
 			switch r := rng.Intn(100); {
 			case r < 35:
 				ev = kit.Ev("Call", "op", genOp(rng, st))
-			case r < 55:
+			case r < 47:
 				n := 1 + rng.Intn(3)
 				ops := make([]any, 0, n)
 				for j := 0; j < n; j++ {
 					ops = append(ops, genOp(rng, st))
 				}
 				ev = kit.Ev("Batch", "ops", ops)
+			case r < 58:
+				ev = kit.Ev("Batch", "ops", genSameRowBatch(rng, st))
 			case r < 88:
 				u := users[rng.Intn(len(users))]
 				for _, cand := range users { // prefer a pass in progress
